@@ -98,6 +98,31 @@ type Case struct {
 	FK   int      `json:"fk,omitempty"` // formula kind
 	Tag  string   `json:"tag,omitempty"`
 	Fam  string   `json:"fam,omitempty"`
+	// round 2: recycling mode (recycle.go), seed of the earlier call / garbage, element width (0: 64 bit, 32),
+	// number of variables of the earlier call when it differs from K (known finding F-C06-INSITU-TEMP-N)
+	Rec   int    `json:"rec,omitempty"`
+	Rseed uint64 `json:"rseed,omitempty"`
+	W     int    `json:"w,omitempty"`
+	KO    int    `json:"ko,omitempty"`
+}
+
+func (c *Case) etFast() int {
+	if c.W == 32 {
+		return ETFloat32
+	}
+	return ETFloat64
+}
+func (c *Case) etGen() int {
+	if c.W == 32 {
+		return ETReal32
+	}
+	return ETReal64
+}
+func (c *Case) ctor(base string) string {
+	if c.W == 32 {
+		return base + "32"
+	}
+	return base
 }
 
 func hexf(x float64) string { return strconv.FormatFloat(x, 'x', -1, 64) }
@@ -195,7 +220,14 @@ func activate(in []ad.Scalar, act []int, k, o int) {
 		if act == nil || act[idx] < 0 {
 			continue
 		}
-		s.(*ad.Real64).SetVariable(act[idx], k, o)
+		switch x := s.(type) {
+		case *ad.Real64:
+			x.SetVariable(act[idx], k, o)
+		case *ad.Real32:
+			x.SetVariable(act[idx], k, o)
+		default:
+			Die("activate: element type %T cannot be activated", s)
+		}
 	}
 }
 
@@ -203,6 +235,16 @@ func activate(in []ad.Scalar, act []int, k, o int) {
 // act/k/o: activation (only with real).  Returns the output scalars in model order,
 // or ok=false with the outcome kind ("error", "panic: ...").
 func RunProg(p int, d []int, inp []float64, real bool, act []int, k, o int) (outs []ad.ConstScalar, outcome string) {
+	et := ETFloat64
+	if real {
+		et = ETReal64
+	}
+	return runProgX(p, d, inp, et, act, k, o, nil)
+}
+
+// runProgX: element type et (ETFloat64 / ETReal64 / ETFloat32 / ETReal32); bf: caller-supplied InSitu
+// buffers (nil: none), see recycle.go
+func runProgX(p int, d []int, inp []float64, et int, act []int, k, o int, bf *bufs) (outs []ad.ConstScalar, outcome string) {
 	defer func() {
 		if r := recover(); r != nil {
 			outs = nil
@@ -212,52 +254,70 @@ func RunProg(p int, d []int, inp []float64, real bool, act []int, k, o int) (out
 	n := d[0]
 	switch p {
 	case PBacksub:
-		A := mkMat(real, inp[:n*n], n, n)
-		b := mkVec(real, inp[n*n:])
+		A := mkMatT(et, inp[:n*n], n, n)
+		b := mkVecT(et, inp[n*n:])
 		activate(append(matScalars(A), vecScalars(b)...), act, k, o)
-		x, err := backSubstitution.Run(A, b)
+		args := []interface{}{}
+		if bf != nil {
+			if bf.inplace {
+				bf.bs.A = A
+			}
+			args = append(args, bf.bs)
+		}
+		x, err := backSubstitution.Run(A, b, args...)
 		if err != nil {
 			return nil, "error"
 		}
 		return constVec(x), "ok"
 	case PDet, PDetPD, PLogDetPD:
-		A := mkMat(real, inp, n, n)
+		A := mkMatT(et, inp, n, n)
 		activate(matScalars(A), act, k, o)
 		var r ad.Scalar
 		var err error
+		args := []interface{}{}
+		if bf != nil {
+			args = append(args, bf.det)
+		}
 		switch p {
 		case PDet:
-			r, err = determinant.Run(A)
+			r, err = determinant.Run(A, args...)
 		case PDetPD:
-			r, err = determinant.Run(A, determinant.PositiveDefinite{Value: true})
+			r, err = determinant.Run(A, append(args, determinant.PositiveDefinite{Value: true})...)
 		default:
-			r, err = determinant.Run(A, determinant.PositiveDefinite{Value: true}, determinant.LogScale{Value: true})
+			r, err = determinant.Run(A, append(args, determinant.PositiveDefinite{Value: true}, determinant.LogScale{Value: true})...)
 		}
 		if err != nil {
 			return nil, "error"
 		}
 		return []ad.ConstScalar{r}, "ok"
 	case PInv, PInvUT, PInvPD:
-		A := mkMat(real, inp, n, n)
+		A := mkMatT(et, inp, n, n)
 		activate(matScalars(A), act, k, o)
 		var X ad.Matrix
 		var err error
+		args := []interface{}{}
+		if bf != nil {
+			if bf.inplace && p != PInvPD {
+				bf.inv.A = A
+			}
+			args = append(args, bf.inv)
+		}
 		switch p {
 		case PInv:
-			X, err = matrixInverse.Run(A)
+			X, err = matrixInverse.Run(A, args...)
 		case PInvUT:
-			X, err = matrixInverse.Run(A, matrixInverse.UpperTriangular{Value: true})
+			X, err = matrixInverse.Run(A, append(args, matrixInverse.UpperTriangular{Value: true})...)
 		default:
-			X, err = matrixInverse.Run(A, matrixInverse.PositiveDefinite{Value: true})
+			X, err = matrixInverse.Run(A, append(args, matrixInverse.PositiveDefinite{Value: true})...)
 		}
 		if err != nil {
 			return nil, "error"
 		}
 		return constMat(X), "ok"
 	case PGJ, PGJUT:
-		a := mkMat(real, inp[:n*n], n, n)
-		x := mkMat(real, inp[n*n:2*n*n], n, n)
-		b := mkVec(real, inp[2*n*n:])
+		a := mkMatT(et, inp[:n*n], n, n)
+		x := mkMatT(et, inp[n*n:2*n*n], n, n)
+		b := mkVecT(et, inp[2*n*n:])
 		activate(append(append(matScalars(a), matScalars(x)...), vecScalars(b)...), act, k, o)
 		var err error
 		if p == PGJ {
@@ -270,56 +330,93 @@ func RunProg(p int, d []int, inp []float64, real bool, act []int, k, o int) (out
 		}
 		return append(append(constMat(a), constMat(x)...), constVec(b)...), "ok"
 	case PChol, PLdl:
-		A := mkMat(real, inp, n, n)
+		A := mkMatT(et, inp, n, n)
 		activate(matScalars(A), act, k, o)
+		args := []interface{}{}
+		if bf != nil {
+			if bf.inplace {
+				bf.ch.L = A
+			}
+			args = append(args, bf.ch)
+		}
 		if p == PChol {
-			L, _, err := cholesky.Run(A)
+			L, _, err := cholesky.Run(A, args...)
 			if err != nil {
 				return nil, "error"
 			}
 			return constMat(L), "ok"
 		}
-		L, D, err := cholesky.Run(A, cholesky.LDL{Value: true})
+		L, D, err := cholesky.Run(A, append(args, cholesky.LDL{Value: true})...)
 		if err != nil {
 			return nil, "error"
 		}
 		return append(constMat(L), constMat(D)...), "ok"
 	case PMdotM:
-		a := mkMat(real, inp[:d[0]*d[1]], d[0], d[1])
-		b := mkMat(real, inp[d[0]*d[1]:], d[1], d[2])
+		a := mkMatT(et, inp[:d[0]*d[1]], d[0], d[1])
+		b := mkMatT(et, inp[d[0]*d[1]:], d[1], d[2])
 		activate(append(matScalars(a), matScalars(b)...), act, k, o)
-		r := ad.NullDenseMatrix(etype(real), d[0], d[2])
+		var r ad.Matrix
+		if bf != nil && bf.r != nil {
+			r = bf.r
+		} else {
+			r = ad.NullDenseMatrix(etypeT(et), d[0], d[2])
+			if bf != nil {
+				bf.r = r
+			}
+		}
 		r.MdotM(a, b)
 		return constMat(r), "ok"
 	case PGS:
-		A := mkMat(real, inp, d[0], d[1])
+		A := mkMatT(et, inp, d[0], d[1])
 		activate(matScalars(A), act, k, o)
-		q, r, err := gramSchmidt.Run(A)
+		args := []interface{}{}
+		if bf != nil {
+			if bf.gs.Q == nil {
+				bf.gs.Q = ad.NullDenseMatrix(etypeT(et), d[0], d[1])
+				bf.gs.R = ad.NullDenseMatrix(etypeT(et), d[0], d[1])
+			}
+			args = append(args, *bf.gs)
+		}
+		q, r, err := gramSchmidt.Run(A, args...)
 		if err != nil {
 			return nil, "error"
 		}
 		return append(constMat(q), constMat(r)...), "ok"
 	case PHess:
-		A := mkMat(real, inp, n, n)
+		A := mkMatT(et, inp, n, n)
 		activate(matScalars(A), act, k, o)
-		H, U, err := hessenbergReduction.Run(A, hessenbergReduction.ComputeU{Value: true}, hessenbergReduction.SetZero{Value: true})
+		args := []interface{}{hessenbergReduction.ComputeU{Value: true}, hessenbergReduction.SetZero{Value: true}}
+		if bf != nil {
+			if bf.inplace {
+				bf.he.H = A
+			}
+			args = append(args, bf.he)
+		}
+		H, U, err := hessenbergReduction.Run(A, args...)
 		if err != nil {
 			return nil, "error"
 		}
 		return append(constMat(H), constMat(U)...), "ok"
 	case PTridiag:
-		A := mkMat(real, inp, n, n)
+		A := mkMatT(et, inp, n, n)
 		activate(matScalars(A), act, k, o)
-		T, U, err := householderTridiagonalization.Run(A, householderTridiagonalization.ComputeU{Value: true})
+		args := []interface{}{householderTridiagonalization.ComputeU{Value: true}}
+		if bf != nil {
+			args = append(args, bf.tr)
+		}
+		T, U, err := householderTridiagonalization.Run(A, args...)
 		if err != nil {
 			return nil, "error"
 		}
 		return append(constMat(T), constMat(U)...), "ok"
 	case PBidiag:
-		A := mkMat(real, inp, d[0], d[1])
+		A := mkMatT(et, inp, d[0], d[1])
 		activate(matScalars(A), act, k, o)
-		B, U, V, err := householderBidiagonalization.Run(A, householderBidiagonalization.ComputeU{Value: true},
-			householderBidiagonalization.ComputeV{Value: true})
+		args := []interface{}{householderBidiagonalization.ComputeU{Value: true}, householderBidiagonalization.ComputeV{Value: true}}
+		if bf != nil {
+			args = append(args, bf.bi)
+		}
+		B, U, V, err := householderBidiagonalization.Run(A, args...)
 		if err != nil {
 			return nil, "error"
 		}
@@ -671,13 +768,32 @@ func dimsFor(rng *Rng, p int, nmax int) []int {
 // value tie: fast path, generic path, model
 func (rn *runner) valueCase(c *Case) {
 	inp := unhexList(c.Inp)
-	fo, fk := RunProg(c.P, c.D, inp, false, nil, 0, 0)
-	gouts, gk := RunProg(c.P, c.D, inp, true, nil, 0, 0)
+	fo, fk := RunProgRec(c.P, c.D, inp, c.etFast(), nil, 0, 0, c.Rec, c.Rseed, c.Fam, 0)
+	gouts, gk := RunProgRec(c.P, c.D, inp, c.etGen(), nil, 0, 0, c.Rec, c.Rseed, c.Fam, c.KO)
 	fv, gv := values(fo), values(gouts)
-	term := fmt.Sprintf("(KV %d %s %s %s %s)", c.P, natList(c.D), FList(inp), optList(fv, fk == "ok"), optList(gv, gk == "ok"))
+	term := fmt.Sprintf("(%s %d %s %s %s %s)", c.ctor("KV"), c.P, natList(c.D), FList(inp), optList(fv, fk == "ok"), optList(gv, gk == "ok"))
 	rn.w.Count("V:" + progName[c.P])
+	rn.countMode("V", c)
 	rn.w.Count("V:outcome:" + outcomeClass(fk) + "/" + outcomeClass(gk))
 	rn.w.Add(term, c, c.key(), c.D[0] >= 2 && fk == "ok")
+}
+
+var recName = []string{"fresh", "garbage", "earlier-call", "in-place"}
+
+func (rn *runner) countMode(kind string, c *Case) {
+	w := "64"
+	if c.W == 32 {
+		w = "32"
+	}
+	rn.w.Count(kind + ":width" + w)
+	if c.Rec != 0 {
+		m := recName[c.Rec]
+		if c.Rec == 3 && !hasInplace(c.P) {
+			m = recName[1]
+		}
+		rn.w.Count(kind + ":recycled:" + m)
+		rn.w.Count(kind + ":recycled:" + progName[c.P])
+	}
 }
 
 func outcomeClass(s string) string {
@@ -688,17 +804,18 @@ func outcomeClass(s string) string {
 }
 
 func (c *Case) key() string {
-	return fmt.Sprintf("%s|%d|%v|%v|%d|%d|%d|%s", c.Kind, c.P, c.D, c.Act, c.K, c.O, c.Fid, strings.Join(c.Inp, ","))
+	return fmt.Sprintf("%s|%d|%v|%v|%d|%d|%d|%d|%d|%d|%s", c.Kind, c.P, c.D, c.Act, c.K, c.O, c.Fid, c.Rec, c.Rseed, c.W, strings.Join(c.Inp, ","))
 }
 
 // derivative tie
 func (rn *runner) derivCase(c *Case) {
 	inp := unhexList(c.Inp)
-	outs, oc := RunProg(c.P, c.D, inp, true, c.Act, c.K, c.O)
+	outs, oc := RunProgRec(c.P, c.D, inp, c.etGen(), c.Act, c.K, c.O, c.Rec, c.Rseed, c.Fam, c.KO)
 	var sl []Slot
 	if oc == "ok" {
 		sl, oc = slots(outs, c.K, c.O)
 	}
+	rn.countMode("D", c)
 	outT := "None"
 	if oc == "ok" {
 		ts := make([]string, len(sl))
@@ -707,7 +824,11 @@ func (rn *runner) derivCase(c *Case) {
 		}
 		outT = "(Some " + List(ts) + ")"
 	}
-	term := fmt.Sprintf("(KD %d %s %d %d %s %s %s)", c.P, natList(c.D), c.K, c.O, B(sqrtful(c.P)), specTerm(inp, c.Act), outT)
+	ctor := c.ctor("KD")
+	if c.Rec != 0 {
+		ctor += "z"
+	}
+	term := fmt.Sprintf("(%s %d %s %d %d %s %s %s)", ctor, c.P, natList(c.D), c.K, c.O, B(sqrtful(c.P)), specTerm(inp, c.Act), outT)
 	rn.w.Count("D:" + progName[c.P])
 	rn.w.Count(fmt.Sprintf("D:order%d", c.O))
 	rn.w.Count("D:outcome:" + outcomeClass(oc))
@@ -801,8 +922,8 @@ func writeCase(rn *runner, c *Case) {
 		rn.eqCase(c)
 	case "Jac", "Hes":
 		rn.helperCase(c)
-	case "R": // InSitu reuse: decided by the implementation-level oracle (--extra hunt) only
-		rn.w.Count("R:handed to the oracle")
+	case "R", "RD": // InSitu reuse: decided by the implementation-level oracle (--extra hunt) only
+		rn.w.Count(c.Kind + ":handed to the oracle")
 	default:
 		Die("unknown case kind %q", c.Kind)
 	}
@@ -889,6 +1010,8 @@ func generate(rng *Rng, n int, tier string) []*Case {
 		}
 		cs = append(cs, &Case{Kind: "F", P: pf[0], D: []int{nn}, Inp: hexList(inp), Act: act, K: k, O: 1, FK: pf[1], Fam: fam})
 	}
+	// ---- round 2: recycled InSitu buffers / in-place calls, 32 bit element types, right-hand-side patterns
+	cs = append(cs, generateRound2(rng, n)...)
 	// ---- routines without a closed model: Real64 values = Float64 values
 	ne := n / 10
 	for i := 0; i < ne; i++ {
